@@ -18,11 +18,11 @@ CLAIMS = {
   note="The per-kind apply functions are trusted (arbitrary heap effect). Undecided: the update loop (select/goroutine, out of the verified subset), idempotence of the write-the-difference functions, SQL effects.",
   ref="DESIGN.md §4 C06"),
  "C18": dict(
-  text="Deductive proof of the gating in the session dispatch: handlers of mailbox/message commands require an authenticated session (and the selected mailbox) as preconditions that are proved at every call site of the verified dispatch functions; handleAuthenticatedCommand / handleSelectedCommand answer ErrNotAuthenticated without touching the state when not logged in; the selected-state callback only runs with a mailbox; Backend.getUserID returns an id only for a user whose connector authorized exactly these credentials, returns none on failure, counts failures, resets on success and answers the third consecutive failure with ErrLoginBlocked.",
-  note="Handler bodies are trusted; State.Selected, Connector.Authorize are abstract models. Undecided: jail timing (timer/WaitGroup), handleLogin/handleIdle bodies, cross-user isolation of files.",
+  text="Deductive proof of the gating in the session dispatch: handlers of mailbox/message commands require an authenticated session (and the selected mailbox) as preconditions that are proved at every call site of the verified dispatch functions; handleAuthenticatedCommand / handleSelectedCommand answer ErrNotAuthenticated without touching the state when not logged in; the selected-state callback only runs with a mailbox; Backend.getUserID returns an id only for a user whose connector authorized exactly these credentials, returns none on failure, counts failures, resets on success and answers the third consecutive failure with ErrLoginBlocked; the function the jail timer runs resets the counter; handleLogin hands the backend exactly the bytes of the command's user name and password, only when the session has no state, and an authenticated session is refused and keeps its state; GetState passes exactly its credentials to getUserID and returns a state only on success.",
+  note="Handler bodies are trusted; State.Selected, Connector.Authorize are abstract models. Undecided: jail timing (timer/WaitGroup), what handleLogin does with the state after GetState (its contract says modifies heap), handleIdle, cross-user isolation of files.",
   ref="DESIGN.md §4 C18"),
  "C03": dict(
-  text="Deductive proof of the Go side of every bulk database operation behind APPEND/STORE/EXPUNGE/COPY/MOVE: for every list length (below, at and beyond the 1000/500 statement-batching limit) each statement handed to the driver has exactly as many arguments as `?` placeholders, the arguments of the statement built for a chunk are that chunk (chunks are specified to tile the input in order), and no index/nil/overflow obligation remains open. Two genuine defects found this way were repaired (IDs beyond the first chunk never removed; flags set on the first message of a chunk only).",
+  text="Deductive proof of the Go side of every bulk database operation behind APPEND/STORE/EXPUNGE/COPY/MOVE: for every list length (below, at and beyond the 1000/500 statement-batching limit) each statement handed to the driver has exactly as many arguments as `?` placeholders and begins with the statement kind its helper expects; the statements of chunk k of the twelve chunked operations carry exactly the k-th chunk of the input, in order, followed by the trailing arguments (call-site assertions over the boxed arguments); chunked reads return every row of every chunk; STORE FLAGS always writes the replacement set (also the empty one) and -FLAGS compares flags without regard to case; no index/nil/overflow obligation remains open. Five genuine defects found this way were repaired (IDs beyond the first chunk never removed; flags set on the first message of a chunk only; MailboxExistsWithID misspelled; STORE FLAGS () kept the old flags; -FLAGS in another letter case kept the flag).",
   note="Assumes: the trusted placeholder precondition of the SQL helper functions (go-sqlite3 ignores surplus arguments), fmt.Sprintf/strings.Join/Repeat placeholder arithmetic, xslices.Chunk specification, SQLite executes the text as written. Undecided: the SQL text itself, the reference semantics of whole command sequences, flag algebra, store bytes, NO/BAD roll-back (wrapTx).",
   ref="DESIGN.md §4 C03"),
  "C04": dict(
@@ -31,22 +31,22 @@ CLAIMS = {
   ref="DESIGN.md §4 C04"),
  "C05": dict(
   text="Deductive proof that State.popResponders releases everything in order when expunges are permitted and otherwise releases no *expunge responder, holds back only *expunge/*targetedExists responders, loses or duplicates nothing (count) and keeps every expunge queued; plus whole-module syntactic obligations: only expunge.handle may construct an EXPUNGE response, flush(…, permitExpunge=true) may only be called from the handlers of commands that permit EXPUNGE, State.flushResponses(…, true) only from beginIdle / Mailbox.Flush; every implementation of Responder.getMessageID is effect-free.",
-  note="Assumes session confinement (C19). Undecided: order preservation inside pop/rem beyond the counted partition, the held-exists-after-held-expunge rule, [EXPUNGEISSUED], responder handle bodies.",
+  note="Assumes session confinement (C19). Mailbox.ExpungeIssued is proved to answer exactly 'an *expunge responder is queued'. Undecided: order preservation inside pop/rem beyond the counted partition, the held-exists-after-held-expunge rule, that every FETCH/STORE/SEARCH handler consults ExpungeIssued, responder handle bodies.",
   ref="DESIGN.md §4 C05"),
  "C08": dict(
   text="Deductive proof, for all list lengths, of the Go side of all read/write operations of the SQLite implementation (69 functions): placeholder/argument agreement of every statement, chunk arguments, GenSQLIn called with a positive count, result accumulation loops, no open safety obligation. The SQL strings are not interpreted.",
   note="Same trusted base as C03. Two operations that splice configured flag names into the SQL text (AddFlagsToAllMailboxes / AddPermFlagsToAllMailboxes) are outside the claim. Undecided: equivalence with a relational model (needs SQL semantics), transactions.",
   ref="DESIGN.md §4 C08"),
  "C12": dict(
-  text="Deductive proof for the rfc822 layer on arbitrary bytes: Split cuts at one index; the header parser terminates, never indexes out of range, and returns entries that lie inside the header, are ordered and tile it; NewHeader terminates; the multipart scanner terminates and every part it reports lies inside the data at the recorded offset; Section accessors are adjacent slices of the literal; parse builds a well-formed Section.",
-  note="Assumes bytes.Index/Trim specs. Undecided: Section.load/Children/Part/Walk (child ranges inside parent), rfc5322 address/date parsers, balanced parentheses of ENVELOPE/BODYSTRUCTURE output, structure = MIME tree.",
+  text="Deductive proof for the rfc822 layer on arbitrary bytes: Split cuts at one index; the header parser terminates, never indexes out of range, and returns entries that lie inside the header, are ordered and tile it; NewHeader terminates; the multipart scanner terminates and every part it reports lies inside the data at the recorded offset; Section accessors are adjacent slices of the literal; parse builds a well-formed Section; Section.load gives every section children that lie inside the body of their parent (positions compared in the shared backing array, also through embedded message/rfc822), and its recursion strictly decreases the section length.",
+  note="Assumes bytes.Index/Trim specs. Stack depth of the recursion is bounded by the input length only (measured: 10^6 nested message/rfc822 levels, the 30 MB literal limit, run within the default stack). Undecided: Children/Part/Walk drivers, rfc5322 address/date parsers, balanced parentheses of ENVELOPE/BODYSTRUCTURE output, structure = MIME tree.",
   ref="DESIGN.md §4 C12"),
  "C13": dict(
   text="Deductive proof on the slicing layer of FETCH: a partial <o.n> is exactly literal[o : min(o+n, len)] (empty beyond the end) with no overflow for 32-bit offsets/counts; Header()/Body()/Literal() of a section are adjacent slices (BODY[HEADER]++BODY[TEXT] = BODY[]); header entries tile the header (no byte lost between HEADER.FIELDS and HEADER.FIELDS.NOT at the entry level); multipart parts start at their recorded offset. Two genuine defects found this way were repaired (empty-valued header field; truncated last part).",
   note="Assumes 0 <= offset, 0 < count <= 2^32-1 at WithPartial's call site (established by the parser's number bound, C16). Undecided: Header.Fields/FieldsNot loops over the linked list, SetHeaderValueNoMemCopy, literal framing, store round trip (C09).",
   ref="DESIGN.md §4 C13"),
  "C10": dict(
-  text="Deductive proof that the scanner classifies every byte value into exactly the RFC 3501 character class (total, loop-free, so complete), that ByteToLower/ByteToInt are the arithmetic they claim, that the token look-ahead of the parser is the next unread byte of the source, and that number / sequence-number / sequence-range / sequence-set parsers return values within the ranges written. Composite commands (fetch attributes, search keys, ...) are not under functional contract yet.",
+  text="Deductive proof that the scanner classifies every byte value into exactly the RFC 3501 character class (total, loop-free, so complete), that ByteToLower/ByteToInt are the arithmetic they claim, that the token look-ahead of the parser is the next unread byte of the source, and that number / sequence-number / sequence-range / sequence-set parsers return values within the ranges written. Keywords are matched case-insensitively: the case-sensitive matcher Parser.ConsumeBytes has no caller in the module (syntactic whole-module obligation). Composite commands (fetch attributes, search keys, ...) are not under functional contract.",
   note="Assumes the Reader model (finite byte sequence then EOF forever, trusted spec of Reader.ReadByte). Undecided: exact decimal value of numbers, strings/literals, dates, composite command grammar, case-insensitivity of keywords, chunking independence beyond byte-wise reads.",
   ref="DESIGN.md §4 C10"),
  "C11": dict(
@@ -62,8 +62,8 @@ CLAIMS = {
   note="Assumes non-negative counts at the call sites (stated as preconditions). Assumes the abstract transaction model (ghost write counter, uninterpreted count/next-UID functions). Undecided: AppendRegular (check on a read-only client outside the inserting transaction), Rename, connector-side creation, all-or-nothing via wrapTx, concurrency.",
   ref="DESIGN.md §4 C17"),
  "C07": dict(
-  text="Deductive proof of the transaction wrapper every database write goes through (sqlite3 Client.wrapTx): for every operation and every failing step, a nil result means exactly one successful commit and no rollback, an error result means nothing was committed, every transaction begun is ended exactly once and at most one is begun. This is the 'before or after, never half' clause for the database part of every operation; it is the only clause of C07 a per-function contract can decide.",
-  note="Assumes the database/sql model in contracts/deps/sql.spec (BeginTx/Commit/Rollback counters; SQLite makes a commit atomic and durable), op does not commit/roll back itself, the recover()/re-panic path is not modelled. NOT decided (no contract within reach): process death at arbitrary points, WAL recovery, the order of store writes and database statements, clean-up of left-overs on restart, message bytes on disk.",
+  text="Deductive proof of the transaction wrapper every database write goes through (sqlite3 Client.wrapTx): for every operation and every failing step, a nil result means exactly one successful commit and no rollback, an error result means nothing was committed, every transaction begun is ended exactly once and at most one is begun. This is the 'before or after, never half' clause for the database part of every operation; Also proved: the three state actions that create a message row (actionCreateMessage, actionCreateRecoveredMessage, actionImportRecoveredMessage) hand the database only an id whose literal was written to the store earlier in the same call (abstract store model: a successful Set adds the id and keeps the others), so an error or crash between the two leaves at most an unreferenced file, never a listed message without bytes.",
+  note="Assumes the database/sql model in contracts/deps/sql.spec (BeginTx/Commit/Rollback counters; SQLite makes a commit atomic and durable), op does not commit/roll back itself, the recover()/re-panic path is not modelled. The store model is assumed (membership only, no bytes). NOT decided (no contract within reach): process death at arbitrary points, WAL recovery, the connector-driven creation path (parallel store writes in closures), deletion order, clean-up of left-overs on restart, message bytes on disk.",
   ref="DESIGN.md §4 C07"),
  "C14": dict(
   text="Deductive proof of the protection clauses of the namespace model, for every name: CREATE of INBOX and DELETE of INBOX (case-insensitive, after modified-UTF-7 decoding) are refused by the session handlers before the state is touched; State.Create refuses every name with the recovery-mailbox prefix (case-insensitive), State.Delete and State.Rename refuse the recovery mailbox as source or destination with ErrOperationNotAllowed - in each case before any write transaction is started (ghost transaction counter unchanged).",
